@@ -518,8 +518,8 @@ add('c14-missing-ref-unknown-code', 'C14', 'break', [(CELL, """            i = m
 add('c14-functions-plain-dict', 'C14', 'break', [(F, """    functions = collections.defaultdict(lambda: not_implemented)""", """    functions = {}""")], expect='C14.table')
 add('c14-error-table-built-from-strings', 'C14', 'break', [('formulas/tokens/operand.py', """    errors = {str(k): k for k in (NULL, DIV, VALUE, REF, NUM, NAME, NA)}""", """    errors = {str(k): str(k) for k in (NULL, DIV, VALUE, REF, NUM, NAME, NA)}""")], expect='C14.plain')
 add('c14-benign-handler-var-renamed', 'C14', 'benign', [(EXCEL, """            except Exception as ex:  # Missing excel file or sheet.
-                log.warning('Error in loading `{}`:\n{}'.format(n_id, ex))""", """            except Exception as err:  # Missing excel file or sheet.
-                log.warning('Error in loading `{}`:\n{}'.format(n_id, err))""")])
+                log.warning('Error in loading `{}`:\\n{}'.format(n_id, ex))""", """            except Exception as err:  # Missing excel file or sheet.
+                log.warning('Error in loading `{}`:\\n{}'.format(n_id, err))""")])
 add('c14-benign-tolerate-more', 'C14', 'benign', [(BUILDER, """                NotImplementedError, RangeValueError, InvalidRangeError
             ))""", """                NotImplementedError, RangeValueError, InvalidRangeError,
                 InvalidRangeName
